@@ -63,7 +63,8 @@ SuppAmounts == {1250, 123456}          \* cents of the rows of the supplemental 
 At(a) == [k |-> "atom", a |-> a]
 And2(a, b) == [k |-> "and", l |-> a, r |-> b]
 Rule(id, c, cat, sub, tags, spec) == [id |-> id, cond |-> c, lets |-> <<>>, cat |-> cat, sub |-> sub, tags |-> tags, m |-> "", spec |-> spec]
-\* the .rules file of the budget (the legacy CSV file has the rules expressible there: 1, 2, 4, 5)
+\* the .rules file of the budget (the legacy CSV file has the rules expressible there: 1, 2, 4 and the
+\* split-by-amount pair 7, 8 - two rows with the SAME pattern that differ only in their [amount] modifier)
 RulesFile(mode, kind) ==
   LET r1 == Rule(1, At("A1"), "Food", "Grocery", {"ta"}, <<50, 1, 0, 4>>)
       r2 == Rule(2, And2(At("A1"), At("A2")), "Big", "", {}, <<50, 1, 1, 4>>)
@@ -75,7 +76,7 @@ RulesFile(mode, kind) ==
       r7 == Rule(7, And2(At("AX"), At("A2")), "Shopping", "Wholesale", {}, <<50, 1, 1, 5>>)
       r8 == Rule(8, At("AX"), "Food", "Grocery", {}, <<50, 1, 0, 5>>)   \* same subcategory as rule 1: a merchant keeps ONE (category, subcategory) in the report
   IN [globals |-> <<>>, mode |-> mode,
-      rules |-> IF kind = "none" THEN <<>> ELSE IF kind = "csv" THEN <<r1, r2, r4>> ELSE <<r6, r1, r2, r3, r4, r5, r7, r8>>]
+      rules |-> IF kind = "none" THEN <<>> ELSE IF kind = "csv" THEN <<r1, r2, r4, r7, r8>> ELSE <<r6, r1, r2, r3, r4, r5, r7, r8>>]
 
 TruthOf(t, suppVisible, stripped) ==
   [a \in {"A1", "A2", "A3", "AP", "AS", "AW", "AX"} |->
